@@ -77,6 +77,20 @@ CLAIMED = {
    note="Trusted: Coq kernel, translator (table), extraction+driver, harness; String::from_utf8_lossy is modelled (Spec/Utf8.v) and compared with std on every case. Raw-name preservation is observed by the correspondence run (reader theorem pending).",
    technique="Coq proof (finite sweeps lifted by induction) over source-translated table + differential correspondence",
    design="8 (C19)"),
+ "C07": dict(
+   text="Machine-checked Coq theorems over an abstract POSIX-like tree (create_dir_all, File::create, chmod with "
+        "kernel-style resolution of '.', '..' and empty pieces): every location ZipArchive::extract writes lies under the "
+        "target directory, for every archive, every prior tree and every outcome (C06's depth walk lifted through "
+        "directory creation, file creation and chmod, incl. the lexical-parent logic); the same for both phases of the "
+        "streaming extractor; an unsafe name stops extraction with the invalid-path error before anything is written "
+        "for it.  Correspondence: both extractors run into a sandbox next to a populated canary directory on archives "
+        "with '..' chains, absolute paths, NUL, backslashes, '.'/empty pieces, duplicates, file/dir conflicts, "
+        "symlink-typed entries, deep nesting and arbitrary permission bits; the complete sandbox listing (paths, types, "
+        "modes, contents) and the result are compared with the model, and judged by the oracle (canary untouched; for "
+        "consistent archives exact tree, contents and recorded permission bits).",
+   note="Trusted: Coq kernel, extraction+driver, harness; the kernel/std::fs are modelled by Spec/Fs.v without symlinks and without permission enforcement (root), validated against the real file system on every case. PARTIAL: the positive tree theorem (C07_tree) is carried by the oracle, not yet proved.",
+   technique="Coq proof (confinement invariant over an abstract file tree) + sandbox-diff correspondence",
+   design="8 (C07)"),
  "C09": dict(
    text="Machine-checked Coq theorems: a one-step 'streams' characterisation is proved for the source under any plan of "
         "short reads, std::io::Take, the ZipCrypto reader (key state = function of the bytes consumed) and Crc32Reader, "
